@@ -5,7 +5,7 @@
     of each byte first). *)
 From Coq Require Import ZArith List Bool.
 From Low Require Import Lib.Bits Lib.BitSeq Lib.Lex Lib.Bytes Lib.LexExtra_sig Model.Sigbits Model.Sigbits32 Model.SigbitsQueries Spec.SigbitsSpec
-  Spec.SigbitsSpec16x Proofs.SigbitsFirstDiff Proofs.SigbitsCountPrefixes Proofs.SigbitsMeaning Proofs.SigbitsCounters Proofs.SigbitsOrder Proofs.Sigbits32Proofs Proofs.SigbitsQueriesProofs Proofs.SigbitsCounterKeys.
+  Spec.SigbitsSpec16x Proofs.SigbitsFirstDiff Proofs.SigbitsCountPrefixes Proofs.SigbitsMeaning Proofs.SigbitsCounters Proofs.SigbitsOrder Proofs.Sigbits32Proofs Proofs.SigbitsQueriesProofs Proofs.SigbitsCounterKeys Proofs.SigbitsSessionProofs.
 Import ListNotations.
 Open Scope Z_scope.
 
@@ -278,4 +278,32 @@ Proof.
   split; [repeat (apply Forall_cons || apply Forall_nil); vm_compute; intuition discriminate|].
   split; [eexists; split; [vm_compute; reflexivity|vm_compute; reflexivity]|].
   vm_compute. reflexivity.
+Qed.
+
+(** * A cross-function session on ONE key slice and ONE SigBits built from it (Model/SigbitsQueries.v):
+      CountPrefixes queries interleaved with ShardByPrefix(keys, maxSize) and FirstDiffBits(keys), any
+      number of steps in any order: no step panics, every CountPrefixes answer is the specification's and
+      FirstDiffBits still returns the adjacent common prefixes (what ShardByPrefix returns is C17) *)
+Theorem C16_session : forall keys steps,
+  keys <> [] -> keys_ok keys -> strict_asc keys -> keys_i32 keys -> Forall (step_ok keys) steps ->
+  exists sb, New keys = Some sb /\
+             run_session keys sb steps = Some (spec_session keys (map spec_of_step steps)).
+Proof. exact session_exact. Qed.
+Print Assumptions C16_session.
+
+Example C16_session_nonvacuous :
+  let keys := [[97]; [97;98;97]; [98;128]] in
+  let steps := [QCount 0 3 9; QShard 1; QFdb; QCount 0 3 9] in
+  keys <> [] /\ keys_ok keys /\ strict_asc keys /\ keys_i32 keys /\ Forall (step_ok keys) steps /\
+  (exists sb, New keys = Some sb /\
+     run_session keys sb steps =
+     Some [(6, [1;2;2;3;3;3;3;3;3]); (0, []); (0, [8; 6]); (6, [1;2;2;3;3;3;3;3;3])]).
+Proof.
+  cbv zeta.
+  split; [discriminate|].
+  split; [apply keys_okb_ok; reflexivity|].
+  split; [apply strict_ascb_ok; reflexivity|].
+  split; [repeat constructor; vm_compute; discriminate|].
+  split; [repeat (apply Forall_cons || apply Forall_nil); vm_compute; intuition discriminate|].
+  eexists; split; [vm_compute; reflexivity|vm_compute; reflexivity].
 Qed.
